@@ -73,7 +73,8 @@ class Ctx:
                 return False
         os.makedirs(self.replaydir, exist_ok=True)
         n = len(self.violations)
-        path = os.path.join(self.replaydir, "%s-%s-%d.json" % (self.pid, self.tier, n))
+        tag = hashlib.md5((key + str(detail)).encode()).hexdigest()[:8]
+        path = os.path.join(self.replaydir, "%s-%s-%d-%s.json" % (self.pid, self.tier, n, tag))
         with open(path, "w") as f:
             json.dump(dict(property=self.pid, key=key, detail=detail, replay=replay_obj, seed=self.seed), f, indent=1, default=str)
         self.violations.append(dict(key=key, detail=str(detail)[:2000], replay=path))
